@@ -19,6 +19,8 @@ Line numbers of the original statements are kept, so reports still point at real
 import ast
 import copy
 
+from . import idioms as _idioms
+
 MAX_HELPER_STMTS = 60
 MAX_UNROLL = 6
 
@@ -499,6 +501,7 @@ class Inliner:
         self.module_funcs = {}            # private module-level functions of this module
         self.local_funcs = {}             # closures (nested def / lambda) of the function being normalised
         self.fresh = {}                   # methods that are new w.r.t. the recorded tree: name -> (ClassDef, def)
+        self.fresh_props = {}             # the same for @property definitions
 
     def helper(self, cls_chain, name):
         for c in cls_chain:
@@ -870,6 +873,15 @@ class _InlineExprs(ast.NodeTransformer):
                     q = self.qual_of(owner, h)
                     self.inl.inlined_calls[q] = self.inl.inlined_calls.get(q, 0) + 1
                     return ast.copy_location(e, node)
+        elif isinstance(node.ctx, ast.Load) and node.attr in self.inl.fresh_props and _simple_elt(node.value):
+            owner, h = self.inl.fresh_props[node.attr]
+            if h is not self.caller and h.args.args:
+                e = self.inl.pure_expr(h, {h.args.args[0].arg: node.value})
+                if e is not None:
+                    self.changed = True
+                    q = self.qual_of(owner, h)
+                    self.inl.inlined_calls[q] = self.inl.inlined_calls.get(q, 0) + 1
+                    return ast.copy_location(e, node)
         return node
 
     def visit_Call(self, node):
@@ -1181,6 +1193,21 @@ def normalize_module(tree, no_inline, all_classes=None, recorded=None):
             bodies = {ast.dump(ast.Module(body=[x for x in b.body if not _is_docstring(x)], type_ignores=[])) for c, b in lst}
             if len(lst) == 1 or len(bodies) == 1:
                 inl.fresh[name] = lst[0]
+        # properties that are new w.r.t. the recorded tree, read on any receiver: the same rule
+        stored = set()
+        for c in known.values():
+            for x in ast.walk(c):
+                if isinstance(x, ast.Attribute) and isinstance(x.ctx, (ast.Store, ast.Del)):
+                    stored.add(x.attr)
+        for name, lst in defs.items():
+            if name.startswith('__') or name in stored or name in ('value', 'name'):
+                continue
+            if not all(c.name in recorded and name not in recorded[c.name] and len(b.decorator_list) == 1 and isinstance(
+                    b.decorator_list[0], ast.Name) and b.decorator_list[0].id == 'property' for c, b in lst):
+                continue
+            bodies = {ast.dump(ast.Module(body=[x for x in b.body if not _is_docstring(x)], type_ignores=[])) for c, b in lst}
+            if len(bodies) == 1:
+                inl.fresh_props[name] = lst[0]
     for n in tree.body:
         if isinstance(n, ast.FunctionDef) and n.name.startswith('_') and not n.name.startswith('__'):
             n._module_level = True
@@ -1195,7 +1222,8 @@ def normalize_module(tree, no_inline, all_classes=None, recorded=None):
                 t2 = _InlineStmts(inl, ch, fn, qual_of)
                 t2.visit(fn)
                 if t1.changed or t2.changed:
-                    # newly exposed conditional expressions / literal loops
+                    # newly exposed library idioms, conditional expressions / literal loops
+                    _idioms.rewrite_function(fn, c.name)
                     _DictIdioms().visit(fn)
                     _IfExpDesugar().visit(fn)
                     _Unroll().visit(fn)
